@@ -2,18 +2,23 @@
 From Coq Require Import List NArith ZArith Bool Lia.
 Import ListNotations.
 Require Import Aurora.C11.Maps Aurora.C15.Model Aurora.C15.ProofsWalk Aurora.C15.ProofsStore Aurora.C15.ProofsPin
-  Aurora.C15.ProofsInv.
+  Aurora.C15.ProofsProbe Aurora.C15.ProofsInv.
 Local Open Scope N_scope.
 
 (** the standing assumptions on the references a history operates on:
     [U] lists them without repetition, every one of them is stored (the
-    traversal completes on the stored bytes [dm] and every reported chunk is
-    there), and the counters cannot overflow a uint64 even if all of them are
-    pinned at the same time *)
+    whole-file probe of the traversal succeeds on the stored bytes [dm]: every
+    chunk of the tree is there), and the counters cannot overflow a uint64
+    even if all of them are pinned at the same time *)
 Definition Setting (cs : N) (dm : list (addr * bytes)) (U : list addr) (base : addr -> N) : Prop :=
   NoDup U /\
-  (forall r, In r U -> stored cs dm r (tl cs dm r)) /\
+  (forall r, In r U -> probe cs dm r = PROk) /\
   (forall c, base c + total_all cs dm U c < W64).
+
+Lemma probe_stored_tl cs dm r : probe cs dm r = PROk -> stored cs dm r (tl cs dm r).
+Proof.
+  intros H. destruct (probe_stored cs dm r H) as (l & E & Hall). unfold stored, tl. rewrite E. split; [reflexivity|exact Hall].
+Qed.
 
 Definition cnt (ps : pstate) (c : addr) : N := cntP (s_pin (p_ls ps)) c.
 
@@ -26,7 +31,8 @@ Section Top.
   Hypothesis HS : Setting cs dm U base.
 
   Let HU := proj1 HS.
-  Let Hst := proj1 (proj2 HS).
+  Let Hpr := proj1 (proj2 HS).
+  Let Hst := fun r (Hr : In r U) => probe_stored_tl cs dm r (proj1 (proj2 HS) r Hr).
   Let Hfit := proj2 (proj2 HS).
   Notation Inv := (Inv cs dm U base).
 
@@ -51,14 +57,14 @@ Section Top.
     (forall c, In c (tl cs dm r) -> pin_has (p_ls ps') c = true /\ countN c (tl cs dm r) <= cnt ps' c) /\
     (has_pin ps r = false -> forall c, cnt ps' c = cnt ps c + countN c (tl cs dm r)).
   Proof.
-    intros HI Hr. destruct (create_pin_step cs capacity dm U base HU Hst Hfit t r ps HI Hr) as (ps' & E & HI' & Hsame & Hl).
+    intros HI Hr. destruct (create_pin_step cs capacity dm U base HU Hpr Hst Hfit t r ps HI Hr) as (ps' & E & HI' & Hsame & Hl).
     rewrite E. split; [reflexivity|].
     assert (Hh : has_pin ps' r = true).
-    { rewrite (has_pin_listed cs capacity dm U base HU Hst Hfit ps' r (inv_roots _ _ _ _ _ HI')), Hl. now rewrite bytes_eqb_refl. }
-    split; [exact Hh|]. split; [now apply (inv_pins cs capacity dm U base HU Hst Hfit ps' r HI')|]. split; [exact (inv_dm _ _ _ _ _ HI')|]. split.
-    - intros c Hc. exact (inv_marked cs capacity dm U base HU Hst Hfit ps' r c HI' Hr Hh Hc).
+    { rewrite (has_pin_listed cs capacity dm U base HU Hpr Hst Hfit ps' r (inv_roots _ _ _ _ _ HI')), Hl. now rewrite bytes_eqb_refl. }
+    split; [exact Hh|]. split; [now apply (inv_pins cs capacity dm U base HU Hpr Hst Hfit ps' r HI')|]. split; [exact (inv_dm _ _ _ _ _ HI')|]. split.
+    - intros c Hc. exact (inv_marked cs capacity dm U base HU Hpr Hst Hfit ps' r c HI' Hr Hh Hc).
     - intros Hn c. unfold cnt. rewrite (inv_cnt _ _ _ _ _ HI'), (inv_cnt _ _ _ _ _ HI).
-      assert (Hln : listedb (p_roots ps) r = false) by (now rewrite <- (has_pin_listed cs capacity dm U base HU Hst Hfit ps r (inv_roots _ _ _ _ _ HI))).
+      assert (Hln : listedb (p_roots ps) r = false) by (now rewrite <- (has_pin_listed cs capacity dm U base HU Hpr Hst Hfit ps r (inv_roots _ _ _ _ _ HI))).
       assert (Ht : total cs dm U (p_roots ps') c = total cs dm U (p_roots ps) c + mult cs dm r c).
       { rewrite <- (total_ainsert cs capacity dm U (p_roots ps) r r c HU Hr Hln).
         clear -Hl. induction U as [|u t0 IH]; simpl; [reflexivity|]. rewrite IH, Hl, listedb_ainsert. reflexivity. }
@@ -71,7 +77,7 @@ Section Top.
     (forall c, In c (tl cs dm r) -> pin_has (p_ls ps') c = true /\ countN c (tl cs dm r) <= cnt ps' c) /\
     (has_pin ps r = false -> forall c, cnt ps' c = cnt ps c + countN c (tl cs dm r)).
   Proof.
-    intros HI Hr. rewrite (api_pin_step cs capacity dm U base HU Hst Hfit t r ps HI Hr).
+    intros HI Hr. rewrite (api_pin_step cs capacity dm U base HU Hpr Hst Hfit t r ps HI Hr).
     pose proof (pin_marks_all_svc t r ps HI Hr) as H. destruct (create_pin cs capacity t r true ps) as [ps' res].
     cbn [fst]. destruct H as (_ & H). split; [reflexivity|exact H].
   Qed.
@@ -82,15 +88,15 @@ Section Top.
     res = POk /\ has_pin ps' r = false /\ ~ In r (pins ps') /\ dmap (p_ls ps') = dm /\ Inv ps' /\
     (has_pin ps r = true -> forall c, cnt ps' c + countN c (tl cs dm r) = cnt ps c).
   Proof.
-    intros HI Hr. destruct (delete_pin_step cs capacity dm U base HU Hst Hfit t r ps HI Hr) as (ps' & E & HI' & Hsame & Hl).
+    intros HI Hr. destruct (delete_pin_step cs capacity dm U base HU Hpr Hst Hfit t r ps HI Hr) as (ps' & E & HI' & Hsame & Hl).
     rewrite E. split; [reflexivity|].
     assert (Hh : has_pin ps' r = false).
-    { rewrite (has_pin_listed cs capacity dm U base HU Hst Hfit ps' r (inv_roots _ _ _ _ _ HI')), Hl. now rewrite bytes_eqb_refl. }
+    { rewrite (has_pin_listed cs capacity dm U base HU Hpr Hst Hfit ps' r (inv_roots _ _ _ _ _ HI')), Hl. now rewrite bytes_eqb_refl. }
     split; [exact Hh|]. split.
-    { intros Hin. apply (inv_pins cs capacity dm U base HU Hst Hfit ps' r HI') in Hin. congruence. }
+    { intros Hin. apply (inv_pins cs capacity dm U base HU Hpr Hst Hfit ps' r HI') in Hin. congruence. }
     split; [exact (inv_dm _ _ _ _ _ HI')|]. split; [exact HI'|].
     intros Hn c. unfold cnt. rewrite (inv_cnt _ _ _ _ _ HI'), (inv_cnt _ _ _ _ _ HI).
-    assert (Hln : listedb (p_roots ps) r = true) by (now rewrite <- (has_pin_listed cs capacity dm U base HU Hst Hfit ps r (inv_roots _ _ _ _ _ HI))).
+    assert (Hln : listedb (p_roots ps) r = true) by (now rewrite <- (has_pin_listed cs capacity dm U base HU Hpr Hst Hfit ps r (inv_roots _ _ _ _ _ HI))).
     assert (Ht : total cs dm U (p_roots ps') c = total cs dm U (aremove cmp_bytes r (p_roots ps)) c).
     { clear -Hl. induction U as [|u t0 IH]; simpl; [reflexivity|]. rewrite IH, Hl, listedb_aremove. reflexivity. }
     rewrite Ht. pose proof (total_aremove cs capacity dm U (p_roots ps) r c HU Hr Hln) as Hr'. unfold mult in Hr'. lia.
@@ -98,7 +104,7 @@ Section Top.
 
   Lemma create_inv t r ps : Inv ps -> In r U -> Inv (fst (create_pin cs capacity t r true ps)).
   Proof.
-    intros HI Hr. destruct (create_pin_step cs capacity dm U base HU Hst Hfit t r ps HI Hr) as (ps' & E & HI' & _).
+    intros HI Hr. destruct (create_pin_step cs capacity dm U base HU Hpr Hst Hfit t r ps HI Hr) as (ps' & E & HI' & _).
     now rewrite E.
   Qed.
 
@@ -111,18 +117,18 @@ Section Top.
     intros HI Hr Hn. cbn zeta.
     pose proof (pin_marks_all_svc t r ps HI Hr) as H1.
     pose proof (create_inv t r ps HI Hr) as HI1.
-    destruct (create_pin_step cs capacity dm U base HU Hst Hfit t r ps HI Hr) as (ps1' & E1 & _ & _ & Hl1).
+    destruct (create_pin_step cs capacity dm U base HU Hpr Hst Hfit t r ps HI Hr) as (ps1' & E1 & _ & _ & Hl1).
     destruct (create_pin cs capacity t r true ps) as [ps1 res1]. cbn [fst] in *. inversion E1; subst ps1' res1. clear E1.
     destruct H1 as (_ & Hh1 & _ & _ & _ & Hc1). specialize (Hc1 Hn).
     pose proof (unpin_step_svc t' r ps1 HI1 Hr) as H2.
-    destruct (delete_pin_step cs capacity dm U base HU Hst Hfit t' r ps1 HI1 Hr) as (ps2' & E2 & HI2 & _ & Hl2).
+    destruct (delete_pin_step cs capacity dm U base HU Hpr Hst Hfit t' r ps1 HI1 Hr) as (ps2' & E2 & HI2 & _ & Hl2).
     destruct (delete_pin cs capacity t' r ps1) as [ps2 res2]. inversion E2; subst ps2' res2. clear E2.
     destruct H2 as (_ & Hh2 & _ & _ & _ & Hc2). specialize (Hc2 Hh1).
     split; [reflexivity|]. split; [|split; [exact Hh2|]].
     - intros c. specialize (Hc1 c). specialize (Hc2 c). lia.
-    - intros k. rewrite (has_pin_listed cs capacity dm U base HU Hst Hfit ps2 k (inv_roots _ _ _ _ _ HI2)), (has_pin_listed cs capacity dm U base HU Hst Hfit ps k (inv_roots _ _ _ _ _ HI)), Hl2, Hl1.
+    - intros k. rewrite (has_pin_listed cs capacity dm U base HU Hpr Hst Hfit ps2 k (inv_roots _ _ _ _ _ HI2)), (has_pin_listed cs capacity dm U base HU Hpr Hst Hfit ps k (inv_roots _ _ _ _ _ HI)), Hl2, Hl1.
       destruct (bytes_eqb r k) eqn:Ek; [|reflexivity].
-      apply bytes_eqb_eq in Ek. subst k. now rewrite <- (has_pin_listed cs capacity dm U base HU Hst Hfit ps r (inv_roots _ _ _ _ _ HI)).
+      apply bytes_eqb_eq in Ek. subst k. now rewrite <- (has_pin_listed cs capacity dm U base HU Hpr Hst Hfit ps r (inv_roots _ _ _ _ _ HI)).
   Qed.
 
   Lemma unpin_restores_api t t' r ps : Inv ps -> In r U -> has_pin ps r = false ->
@@ -131,13 +137,13 @@ Section Top.
     code1 = Some 201 /\ code2 = Some 200 /\ (forall c, cnt ps2 c = cnt ps c) /\ has_pin ps2 r = false /\
     (forall k, has_pin ps2 k = has_pin ps k).
   Proof.
-    intros HI Hr Hn. rewrite (api_pin_step cs capacity dm U base HU Hst Hfit t r ps HI Hr), Hn.
+    intros HI Hr Hn. rewrite (api_pin_step cs capacity dm U base HU Hpr Hst Hfit t r ps HI Hr), Hn.
     pose proof (create_inv t r ps HI Hr) as HI1.
     pose proof (unpin_restores_svc t t' r ps HI Hr Hn) as H. cbn zeta in H.
     pose proof (pin_marks_all_svc t r ps HI Hr) as H1.
     destruct (create_pin cs capacity t r true ps) as [ps1 res1]. cbn [fst] in *.
     destruct H1 as (_ & Hh1 & _).
-    rewrite (api_unpin_step cs capacity dm U base HU Hst Hfit t' r ps1 HI1 Hr), Hh1.
+    rewrite (api_unpin_step cs capacity dm U base HU Hpr Hst Hfit t' r ps1 HI1 Hr), Hh1.
     destruct (delete_pin cs capacity t' r ps1) as [ps2 res2]. cbn [fst].
     destruct H as (_ & H). split; [reflexivity|]. split; [reflexivity|exact H].
   Qed.
@@ -150,18 +156,18 @@ Section Top.
     intros HI Hr. cbn zeta. pose proof (pin_marks_all_svc t r ps HI Hr) as H1.
     pose proof (create_inv t r ps HI Hr) as HI1.
     destruct (create_pin cs capacity t r true ps) as [ps1 res1]. cbn [fst] in *. destruct H1 as (_ & Hh1 & _).
-    destruct (create_pin_step cs capacity dm U base HU Hst Hfit t' r ps1 HI1 Hr) as (ps2 & E & _ & Hsame & _).
+    destruct (create_pin_step cs capacity dm U base HU Hpr Hst Hfit t' r ps1 HI1 Hr) as (ps2 & E & _ & Hsame & _).
     rewrite E. now rewrite (Hsame Hh1).
   Qed.
   Lemma pin_idempotent_api t t' r ps : Inv ps -> In r U ->
     let ps1 := fst (api_pin cs capacity t r ps) in
     api_pin cs capacity t' r ps1 = (ps1, Some 200).
   Proof.
-    intros HI Hr. cbn zeta. rewrite (api_pin_step cs capacity dm U base HU Hst Hfit t r ps HI Hr). cbn [fst].
+    intros HI Hr. cbn zeta. rewrite (api_pin_step cs capacity dm U base HU Hpr Hst Hfit t r ps HI Hr). cbn [fst].
     pose proof (pin_marks_all_svc t r ps HI Hr) as H1. pose proof (create_inv t r ps HI Hr) as HI1.
     pose proof (pin_idempotent_svc t t' r ps HI Hr) as H2. cbn zeta in H2.
     destruct (create_pin cs capacity t r true ps) as [ps1 res1]. cbn [fst] in *. destruct H1 as (_ & Hh1 & _).
-    rewrite (api_pin_step cs capacity dm U base HU Hst Hfit t' r ps1 HI1 Hr), H2, Hh1. reflexivity.
+    rewrite (api_pin_step cs capacity dm U base HU Hpr Hst Hfit t' r ps1 HI1 Hr), H2, Hh1. reflexivity.
   Qed.
   Lemma unpin_idempotent_svc t t' r ps : Inv ps -> In r U ->
     let ps1 := fst (delete_pin cs capacity t r ps) in
@@ -169,54 +175,54 @@ Section Top.
   Proof.
     intros HI Hr. cbn zeta. pose proof (unpin_step_svc t r ps HI Hr) as H1.
     destruct (delete_pin cs capacity t r ps) as [ps1 res1]. cbn [fst] in *. destruct H1 as (_ & Hh1 & _ & _ & HI1 & _).
-    destruct (delete_pin_step cs capacity dm U base HU Hst Hfit t' r ps1 HI1 Hr) as (ps2 & E & _ & Hsame & _).
+    destruct (delete_pin_step cs capacity dm U base HU Hpr Hst Hfit t' r ps1 HI1 Hr) as (ps2 & E & _ & Hsame & _).
     rewrite E. now rewrite (Hsame Hh1).
   Qed.
   Lemma unpin_idempotent_api t t' r ps : Inv ps -> In r U ->
     let ps1 := fst (api_unpin cs capacity t r ps) in
     api_unpin cs capacity t' r ps1 = (ps1, Some 404).
   Proof.
-    intros HI Hr. cbn zeta. rewrite (api_unpin_step cs capacity dm U base HU Hst Hfit t r ps HI Hr). cbn [fst].
+    intros HI Hr. cbn zeta. rewrite (api_unpin_step cs capacity dm U base HU Hpr Hst Hfit t r ps HI Hr). cbn [fst].
     pose proof (unpin_step_svc t r ps HI Hr) as H1.
     pose proof (unpin_idempotent_svc t t' r ps HI Hr) as H2. cbn zeta in H2.
     destruct (delete_pin cs capacity t r ps) as [ps1 res1]. cbn [fst] in *. destruct H1 as (_ & Hh1 & _ & _ & HI1 & _).
-    rewrite (api_unpin_step cs capacity dm U base HU Hst Hfit t' r ps1 HI1 Hr), H2, Hh1. reflexivity.
+    rewrite (api_unpin_step cs capacity dm U base HU Hpr Hst Hfit t' r ps1 HI1 Hr), H2, Hh1. reflexivity.
   Qed.
 
   (** *** histories *)
   Definition svc_op (o : pop) : Prop :=
-    match o with PCreate _ r true | PDelete _ r => In r U | PHas _ | PPins => True | _ => False end.
+    match o with PCreate _ r true | PDelete _ r => refok cs dm U r | PHas _ | PPins => True | _ => False end.
   Definition api_op (o : pop) : Prop :=
-    match o with PApiPin _ r | PApiUnpin _ r => In r U | PApiGet _ | PApiList | PApiBad _ => True | _ => False end.
-  Lemma svc_allowed o : svc_op o -> allowed U o.
+    match o with PApiPin _ r | PApiUnpin _ r => refok cs dm U r | PApiGet _ | PApiList | PApiBad _ => True | _ => False end.
+  Lemma svc_allowed o : svc_op o -> allowed cs dm U o.
   Proof. destruct o; cbn; try tauto. Qed.
-  Lemma api_allowed o : api_op o -> allowed U o.
+  Lemma api_allowed o : api_op o -> allowed cs dm U o.
   Proof. destruct o; cbn; try tauto. Qed.
 
-  Lemma history_accounting h ps : Inv ps -> Forall (allowed U) h ->
+  Lemma history_accounting h ps : Inv ps -> Forall (allowed cs dm U) h ->
     let ps' := pexec cs capacity po ps h in
     Inv ps' /\ dmap (p_ls ps') = dm /\
     (forall c, cnt ps' c = base c + total cs dm U (p_roots ps') c) /\
-    (forall k, has_pin ps' k = last_op h k (has_pin ps k)) /\
+    (forall k, has_pin ps' k = last_op cs dm h k (has_pin ps k)) /\
     (forall k, In k (pins ps') <-> has_pin ps' k = true).
   Proof.
     intros HI Hall. cbn zeta.
-    destruct (run_inv cs capacity dm U base HU Hst Hfit po h ps HI Hall) as [HI' Hl].
+    destruct (run_inv cs capacity dm U base HU Hpr Hst Hfit po h ps HI Hall) as [HI' Hl].
     split; [exact HI'|]. split; [exact (inv_dm _ _ _ _ _ HI')|]. split; [exact (inv_cnt _ _ _ _ _ HI')|]. split.
-    - intros k. rewrite (has_pin_listed cs capacity dm U base HU Hst Hfit _ k (inv_roots _ _ _ _ _ HI')), (has_pin_listed cs capacity dm U base HU Hst Hfit ps k (inv_roots _ _ _ _ _ HI)). apply Hl.
-    - intros k. exact (inv_pins cs capacity dm U base HU Hst Hfit _ k HI').
+    - intros k. rewrite (has_pin_listed cs capacity dm U base HU Hpr Hst Hfit _ k (inv_roots _ _ _ _ _ HI')), (has_pin_listed cs capacity dm U base HU Hpr Hst Hfit ps k (inv_roots _ _ _ _ _ HI)). apply Hl.
+    - intros k. exact (inv_pins cs capacity dm U base HU Hpr Hst Hfit _ k HI').
   Qed.
 
   Lemma listed_iff_last_was_pin_svc h ps : Inv ps -> Forall svc_op h ->
     let ps' := pexec cs capacity po ps h in
-    (forall k, has_pin ps' k = last_op h k (has_pin ps k)) /\ (forall k, In k (pins ps') <-> has_pin ps' k = true).
+    (forall k, has_pin ps' k = last_op cs dm h k (has_pin ps k)) /\ (forall k, In k (pins ps') <-> has_pin ps' k = true).
   Proof.
     intros HI Hall. apply (history_accounting h ps HI).
     eapply Forall_impl; [|exact Hall]. exact svc_allowed.
   Qed.
   Lemma listed_iff_last_was_pin_api h ps : Inv ps -> Forall api_op h ->
     let ps' := pexec cs capacity po ps h in
-    (forall k, has_pin ps' k = last_op h k (has_pin ps k)) /\ (forall k, In k (pins ps') <-> has_pin ps' k = true).
+    (forall k, has_pin ps' k = last_op cs dm h k (has_pin ps k)) /\ (forall k, In k (pins ps') <-> has_pin ps' k = true).
   Proof.
     intros HI Hall. apply (history_accounting h ps HI).
     eapply Forall_impl; [|exact Hall]. exact api_allowed.
@@ -244,14 +250,7 @@ Proof.
     + reflexivity.
 Qed.
 
-(** boolean forms of the other standing assumptions (for the example) *)
-Definition storedb (cs : N) (dm : list (addr * bytes)) (r : addr) : bool :=
-  match tlist cs dm r with Some l => forallb (hasD dm) l | None => false end.
-Lemma storedb_ok cs dm r : storedb cs dm r = true -> stored cs dm r (tl cs dm r).
-Proof.
-  unfold storedb, stored, tl. destruct (tlist cs dm r) as [l|]; [|discriminate]. intros H. split; [reflexivity|].
-  apply Forall_forall. intros a Ha. rewrite forallb_forall in H. exact (H a Ha).
-Qed.
+(** boolean form of the no-zero-entry assumption (for the example) *)
 Definition nozerob (P : list (addr * N)) : bool := forallb (fun kv => 0 <? snd kv) P.
 Lemma nozerob_ok P : nozerob P = true -> nozero P.
 Proof. unfold nozerob, nozero. intros H k v Hin. rewrite forallb_forall in H. specialize (H _ Hin). now apply N.ltb_lt in H. Qed.
